@@ -343,6 +343,27 @@ def progress_rule(chk, prog, cfg, bodies):
             chk.ob("PROGRESS", p, f"loop#{sorted(heads).index(h)}: every cycle consumes input", w is None,
                    "a cycle of this loop consumes no input: some input can make the parser spin forever", where=b.where(h), path=w, cfg=cfg)
     chk.floor(f"parser loops [{cfg}]", loops, 10 if cfg == "A" else 3)
+    # end of input: a cycle whose read reports Ok(0) must leave the loop (abstract execution of the EOF scenario)
+    from .. import eofscan
+    n_eof = n_und = 0
+    stream_readers = {p for p in cons if prog.bodies[p].kind not in ("closure", "coroutine") and
+                      any(prog.bodies[q].calls_to(eofscan.EOF_READ + "|(Read::read_exact|AsyncReadExt::read_exact)$") for q in prog.reach_bodies([p]))}
+    for p in sorted(bodies):
+        b = prog.bodies[p]
+        if "promoted" in p:
+            continue
+        for r, verdict, detail in eofscan.scan(prog, b, stream_readers):
+            n_eof += 1
+            name = core.short(b.term(r)["callee"])
+            chk.extra.setdefault("eof_scenario_examined", []).append(f"{cfg}|{p}|{name}@{b.where(r)}: {verdict}")
+            if verdict == "undecided":
+                n_und += 1
+                chk.extra.setdefault("eof_scenario_undecided", []).append(f"{cfg}|{p}|{name}: {detail}")
+                continue
+            chk.ob("PROGRESS.eof", p, f"loop around {name}: at end of input (Ok(0), buffer unchanged) the cycle leaves the loop", verdict == "exit",
+                   "at end of input this loop comes back to the same read with every branch decided: a truncated message makes the parser spin forever",
+                   where=b.where(r), path=[b.where(x) for x in detail][:12] if verdict == "spin" else None, cfg=cfg)
+    chk.floor(f"read loops examined at end of input [{cfg}]", n_eof - n_und, 4 if cfg == "A" else 1)
 
 
 def _yield_blocks(b):
